@@ -88,6 +88,37 @@ CLAIMED["C07"] = dict(
     technique="bounded exhaustive enumeration of configurations (deviation-bounded DFS) with a machine-state simulator as oracle",
     design_ref="3/C07", engine="engine/msim.h")
 
+CLAIMED["C01"] = dict(
+    level="exploration",
+    text="All 5903 database forms x {32,64}-bit mode: default instantiation + every single deviation (quick; thorough adds pairs on one representative form per "
+         "encoder path) over register-id, memory-form (~75 symbols incl. disp8*N boundaries, VSIB, 16-bit, rip, absolute, segments), immediate and decoration/option "
+         "alphabets; every accepted case (strict validation) is judged by a database-driven field decoder (prefixes, REX/VEX/EVEX/XOP fields, ModRM/SIB/disp, imm, length), "
+         "objdump and llvm-objdump (exactly one instruction of the appended length) and a GNU as reference encoding compared under the same decoder.",
+    note="Finite alphabets; APX forms are not encoded by this asmjit and are not judged; third-party tools older than some db entries make their leg inconclusive there; "
+         "11 database records that contradict the SDM are patched in the oracle (DB_ERRATA, documented in lib/x86cases.py). 51 known defect classes are listed in known_findings.txt.",
+    technique="exhaustive enumeration of a finite input space (forms x alphabets, deviation bounded) on the implementation with independent decoders/reference assembler as oracle",
+    design_ref="3/C01", engine="harness/emit_x86.cpp")
+
+CLAIMED["C16"] = dict(
+    level="model_checking",
+    text="Every history of <=4 (quick) / <=5 (thorough) operations over init/attach/detach/reinit/reset(soft,hard)/logger/section/label/flatten+relocate/10 program "
+         "generators (Assembler, Builder, Compiler; incl. failing programs) on one recycled CodeHolder + emitter set, each followed by every final program, in 16 "
+         "configurations (static vs dynamic arena, logger, validation, two heap fill patterns); sections, labels, relocations, fixups, address table and ids must equal "
+         "the same calls replayed on completely fresh objects; ASan/UBSan silent.",
+    note="x86-32 not explored; init with explicit base not explored; histories are not merged (hidden residue is the subject).",
+    technique="exhaustive enumeration of operation histories on the implementation, differential against fresh objects across configurations",
+    design_ref="3/C16", engine="harness/c16_reuse.cpp")
+
+CLAIMED["C18"] = dict(
+    level="model_checking",
+    text="Explicit-state BFS (canonical-state dedup) over operation histories of Arena, ArenaVector (4 item types), ArenaHash, ArenaTree, ArenaList, ArenaBitSet, "
+         "ArenaPool, String/StringTmp and all pairs of containers sharing one arena (heap and dirty static arenas, reset soft/hard), plus exhaustive sweeps (all tree "
+         "insertion/removal orders for n<=7, all request sizes, all bit-vector primitive arguments, hash growth table); std:: reference models, structural invariants "
+         "and an arena partition invariant after every operation; ASan/UBSan are part of the oracle.",
+    note="Depth bounds per part (quick 3-7, thorough 4-9); key/size alphabets are finite.",
+    technique="explicit-state BFS over operation histories on the implementation with reference-model oracle",
+    design_ref="3/C18", engine="harness/c18_containers.cpp")
+
 NOT_YET = "check not built yet in this round (planned, see DESIGN.md section 3); not claimed until it exists and passes"
 
 
